@@ -146,7 +146,7 @@ PROPS["C18"] = {
     "level_text": 'Structural fault enumeration with a panic/abort monitor in crash-isolated workers, bucketed by panic site; supplementary valgrind / ASan legs in the thorough tier.',
     "level": "fault_enumeration",
     "technique": "runtime crash monitor: structural malformations of accepted proofs run through the real StarkProof::verify and the three standalone validation entry points under a panic hook + catch_unwind, in crash-isolated worker processes with an address-space limit and CPU watchdog; panics are bucketed by (file, source line text, message class)",
-    "rule": "for each honest proof (quick: one per shipped build; thorough: all 26): every vector truncated to 0/1/len-1, extended, rotated; same-typed vectors swapped; every config / public-input number (and a sample of all other numbers) set to each of {0,1,2^16,2^32,2^40,2^63,2^64-1,2^64,2^128,2^250,p-2,p-1, original + 2^32 / 2^64 / 2^128 / 7*2^248}; 15 typed group edits (hostile value with dependent fields re-declared consistently; a table declared with zero columns and its values emptied; output / program spans of 2^32..2^64-1 cells, alone and paired so that only their sum overflows the machine word; a surplus trailing FRI step); random pairs and triples of these; a case is non-trivial when the edited proof is well-typed and differs from the original",
+    "rule": "for each honest proof (quick: one per shipped build; thorough: all 26): every vector truncated to 0/1/len-1, extended, rotated; same-typed vectors swapped; every config / public-input number (and a sample of all other numbers) set to each of {0,1,2^16,2^32,2^40,2^63,2^64-1,2^64,2^128,2^250,p-2,p-1, original + 2^32 / 2^64 / 2^128 / 7*2^248}; 16 typed group edits (hostile value with dependent fields re-declared consistently; a table declared with zero columns and its values emptied; output / program spans of 2^32..2^64-1 cells, alone and paired so that only their sum overflows the machine word; a surplus trailing FRI step; inner-layer table configs dropped / a layer declared without one, the last-layer bound re-declared to match); random pairs and triples of these; a case is non-trivial when the edited proof is well-typed and differs from the original",
     "legs": [full("malformed", "malformed", t=FULL_SHIPPED, sharded=True, timeout={"quick": 1500, "thorough": 14000}),
              tool_leg("memcheck", "valgrind", "full", "malformed", FULL_ONE, shards=16, of=40),
              tool_leg("asan", "asan", "full", "malformed", FULL_ONE, shards=16, of=16)],
@@ -169,7 +169,7 @@ PROPS["C11"] = {
     "level_text": "Differential exploration against the statement's integer predicate (three-valued) over boundary values of every field, truncations, 9 consistent re-declaration groups, cross products and random pairs, from honest and synthesised seeds.",
     "level": "exploration",
     "technique": "runtime differential monitor: real StarkConfig::validate vs the property's predicate evaluated over arbitrary-precision integers (three-valued: accept / reject / don't-care), on boundary-value, truncation, consistent-re-declaration and pairwise edits of honest and synthesised configurations",
-    "rule": "seed configs = honest ones (quick: 4 by seed; thorough: all of the build) + 30 / 500 synthesised valid ones; edits: every numeric field <- {0,1,2,4,5,15..21,47..51,128,129,2^16,2^32,2^40,2^63,2^64-1,2^64,2^128,2^250,p-2,p-1,+-1, original + 2^32 / 2^64 / 3*2^64 / 2^128 / 2^192 / 7*2^248}, every vector truncated to 0/1/len-1 and extended, 15 groups of consistent re-declarations (incl. a surplus trailing FRI step x in {1,2,p-1,p-2,p-4} with the last-layer bound re-declared to match a whole-vector sum) x their value lists (also judged at their own security level), random pairs; security levels exact, +-1, 0, p-1; every case is non-trivial; distinct = distinct (seed config, edit, level)",
+    "rule": "seed configs = honest ones (quick: 4 by seed; thorough: all of the build) + 30 / 500 synthesised valid ones; edits: every numeric field <- {0,1,2,4,5,15..21,47..51,128,129,2^16,2^32,2^40,2^63,2^64-1,2^64,2^128,2^250,p-2,p-1,+-1, original + 2^32 / 2^64 / 3*2^64 / 2^128 / 2^192 / 7*2^248}, every vector truncated to 0/1/len-1 and extended, 16 groups of consistent re-declarations (incl. a surplus trailing FRI step x in {1,2,p-1,p-2,p-4} with the last-layer bound re-declared to match a whole-vector sum; the last 1..3 inner-layer table configs dropped, or one more layer declared without a table config, with the last-layer bound re-declared so that a sum over the PAIRED entries still matches) x their value lists (also judged at their own security level), random pairs; security levels exact, +-1, 0, p-1; every case is non-trivial; distinct = distinct (seed config, edit, level)",
     "legs": [full("config", "config", q=FULL_ONE, t=FULL_SHIPPED)],
     "required_counters": ["expected_Accept.accepted", "expected_Reject.rejected", "group.blowup_mod_p", "group.fri_input_only"],
     "assumptions": TRUSTED[:1] + ["constraints the implementation enforces beyond the statement (friendly count of FRI layers, surplus vector elements, 1..=128 column range) are a don't-care region"],
@@ -191,7 +191,7 @@ PROPS["C17"] = {
     "level_text": 'Resource monitoring under hostile numeric values (alone, re-declared consistently, and in cross products): transcript-event budget (hook), heap counters, CPU-time budget, address-space limit, in crash-isolated workers.',
     "level": "exploration",
     "technique": "runtime resource monitor: hostile numeric values (alone and with dependent fields re-declared consistently) run through the real verifier in crash-isolated workers under a transcript-event budget (hook), a counting global allocator, an 8 GiB address-space limit and a CPU-time watchdog; verdicts on logical counters and CPU time only",
-    "rule": "bounded restatement: for a proof of S serialised bytes holding N field elements: transcript events <= 64+4N, peak heap <= 64S+64MiB, total allocation <= 4096S+256MiB, CPU <= max(10 s, 200x the honest original measured in the same process); cases = every numeric leaf <- {0,1,2^16,2^32,2^40,2^63,2^64-1,2^64,2^128,2^250,p-2,p-1} (quick: config/public-input scalars + 500 sampled), 15 re-declaration groups x value lists, group x leaf and group x group combinations, program-length x output-length pairs at the machine-word edge; parser side (leg parserres): page numbers, addresses, proof parameters, public-input scalars, segment bounds, dynamic parameters of shipped FILES set to 2^16..2^53, parse + CLI conversion under the same heap / CPU budgets with S the file size; non-trivial = well-typed and different from the original",
+    "rule": "bounded restatement: for a proof of S serialised bytes holding N field elements: transcript events <= 64+4N, peak heap <= 64S+64MiB, total allocation <= 4096S+256MiB, CPU <= max(10 s, 200x the honest original measured in the same process); cases = every numeric leaf <- {0,1,2^16,2^32,2^40,2^63,2^64-1,2^64,2^128,2^250,p-2,p-1} (quick: config/public-input scalars + 500 sampled), 16 re-declaration groups x value lists, group x leaf and group x group combinations, program-length x output-length pairs at the machine-word edge; parser side (leg parserres): page numbers, addresses, proof parameters, public-input scalars, segment bounds, dynamic parameters of shipped FILES set to 2^16..2^53, parse + CLI conversion under the same heap / CPU budgets with S the file size; non-trivial = well-typed and different from the original",
     "legs": [full("resource", "resource", t=FULL_SHIPPED, sharded=True, timeout={"quick": 1500, "thorough": 14000}),
              full("parserres", "parserres", q=FULL_ONE, t=FULL_ONE, sharded=True, timeout={"quick": 900, "thorough": 3600})],
     "required_counters": ["honest.events", "outcome.error_value", "parser.cases"],
